@@ -1,8 +1,338 @@
 /-
-  C02 — fixed-column records never spill.  (Property theorems are added by the C02 builder;
-  this first version ties the model's preprocess_specification to the generated tables.)
+  C02 — fixed-column records never spill: each field parses back to what was written.
+
+  Property theorems about `Model/Fixed.lean` (model of fixed_format_file.preprocess_specification /
+  parse_string / write_values_to_string / fit_value and of Python's `%` formatting on exact values),
+  instantiated on the four format tables regenerated from /repo into `Gen/Specs.lean`.
+  Proofs: `Proofs/FixedDigits, FixedRound, FixedFmt, FixedRecord, FixedTables`.
+
+  Reading guide (clause of the property → theorem):
+    "keeps every value inside its own columns"            no_silent_spill, written_field_in_own_columns
+    "parsing returns, field by field, the value written"  write_then_parse_field + the roundtrip_* theorems
+       exactly for names and integers                     roundtrip_name, roundtrip_int
+       to the printed digits for reals                    roundtrip_real_e, roundtrip_real_f (+ fmtE_mantissa_normalised, fmtE_nearest)
+       nothing for an absent value                        roundtrip_absent
+    "never a value displaced from a neighbouring field"   parse_depends_only_on_own_columns
+    "loses precision in that one value or fails loudly"   no_silent_spill (Written.reduced), reduced_precision_is_maximal,
+                                                          fails_only_when_unrepresentable
+    the "fits" lattice sign × exponent width × precision  fmtE_length, fmtF_length, fmtD_length, fmtS_length
+    every field of every record kind of the four tables   all_tables_wf   (decide over Gen/Specs.lean, re-checked every run)
+    short lines                                            parse_short_line, parse_written_record
 -/
 import PyTough.Model.Fixed
 import PyTough.Gen.Specs
+import PyTough.Proofs.FixedRecord
+import PyTough.Proofs.FixedTables
+import PyTough.Proofs.FixedNear
+
 namespace Props.C02
+open Py Model Proofs
+
+/-! ### how wide `%` makes a value: the exact "fits" lattice -/
+
+/-- number of decimal digits of `n` (`decLen 0 = 1`) -/
+def decLen (n : Nat) : Nat := (natDigits n).length
+
+theorem decLen_le_iff {n k : Nat} (hk : 0 < k) : decLen n ≤ k ↔ n < 10 ^ k :=
+  natDigits_length_le_iff hk
+
+/-- `'%w.pe' % x` for a real `x = ±n/d`: never shorter than `w`, and exactly
+    sign + mantissa (`p+1` digits and the point) + `e±` + an exponent of at least two digits,
+    where the exponent is the decimal exponent *after* rounding (`fmtEParts`, carry included). -/
+theorem fmtE_length (f : FieldSpec) (ht : f.typ = 'e') (r : Rat) :
+    ∃ s, fmtVal f (.real r) = .ok s ∧
+      s.length = max f.width
+        ((if r < 0 then 1 else 0) + (if f.prec.getD 6 = 0 then 1 else f.prec.getD 6 + 2) + 2 +
+          max 2 (decLen (fmtEParts (f.prec.getD 6) r.num.natAbs r.den).2.natAbs)) := by
+  refine ⟨_, fmtVal_e_real ht r, ?_⟩
+  rw [pad_length, List.length_append, fmtEBody_length _ _ _ r.den_pos]
+  unfold signChars decLen
+  by_cases h : r < 0 <;> simp [h] <;> omega
+
+/-- the printed mantissa of a non-zero value has exactly `p+1` significant digits:
+    `10^p ≤ m < 10^(p+1)`, also after the carry `9.9996 → 1.000e+01` -/
+theorem fmtE_mantissa_normalised (p n d : Nat) (hn : 0 < n) (hd : 0 < d) :
+    10 ^ p ≤ (fmtEParts p n d).1 ∧ (fmtEParts p n d).1 < 10 ^ (p + 1) :=
+  fmtEParts_normalised p n d hn hd
+
+/-- `'%w.pf' % x`: sign + integer digits of the rounded value + point and `p` decimals -/
+theorem fmtF_length (f : FieldSpec) (ht : f.typ = 'f') (r : Rat) :
+    ∃ s, fmtVal f (.real r) = .ok s ∧
+      s.length = max f.width
+        ((if r < 0 then 1 else 0) +
+          decLen (fM (f.prec.getD 6) r.num.natAbs r.den / 10 ^ (f.prec.getD 6)) +
+          (if f.prec.getD 6 = 0 then 0 else f.prec.getD 6 + 1)) := by
+  refine ⟨_, fmtVal_f_real ht r, ?_⟩
+  rw [pad_length, List.length_append, fmtFBody_length]
+  unfold signChars decLen
+  by_cases h : r < 0 <;> simp [h] <;> omega
+
+/-- `'%wd' % i`: sign + decimal digits; so it fits iff `|i| < 10^(w - sign)` (see `decLen_le_iff`) -/
+theorem fmtD_length (f : FieldSpec) (ht : f.typ = 'd') (i : Int) :
+    ∃ s, fmtVal f (.int i) = .ok s ∧
+      s.length = max f.width ((if i < 0 then 1 else 0) + decLen i.natAbs) := by
+  refine ⟨_, fmtVal_d_int ht i, ?_⟩
+  rw [pad_length, List.length_append]
+  unfold signChars decLen
+  by_cases h : i < 0 <;> simp [h]
+
+/-- `'%ws' % name` (`'%-ws'`, `'%w.ks'`): the name is never cut to the width -/
+theorem fmtS_length (f : FieldSpec) (ht : f.typ = 's') (nm : Str) :
+    ∃ s, fmtVal f (.str nm) = .ok s ∧ s.length = max f.width (strTrunc f.prec nm).length :=
+  ⟨_, fmtVal_s_str ht nm, pad_length _ _ _⟩
+
+-- non-vacuity / the cases the property text names
+def e10_4 : FieldSpec := { raw := "10.4".toList, width := 10, left := false, prec := some 4, typ := 'e' }
+def d5 : FieldSpec := { raw := "5".toList, width := 5, left := false, prec := none, typ := 'd' }
+def s5 : FieldSpec := { raw := "5".toList, width := 5, left := false, prec := none, typ := 's' }
+example : parseSpec "10.4e".toList = .ok e10_4 := by decide
+example : fmtVal e10_4 (.real (-2600)) = .ok "-2.6000e+03".toList := by decide +kernel   -- 11 columns
+example : fmtVal e10_4 (.real 2600) = .ok "2.6000e+03".toList := by decide +kernel
+example : (fmtEParts 4 999996 100000) = (10000, 1) := by decide +kernel                  -- 9.99996 → 1.0000e+01
+
+/-! ### one field of `write_values_to_string` -/
+
+/-- **No field is ever wider or narrower than its columns**: whatever `write_values_to_string`
+    puts in a field has exactly the field's width, and it is one of: blanks (absent value / `x`
+    field), the correctly formatted value, or — for a real that does not fit — the same value
+    formatted with fewer decimals (`Written.reduced`).  Otherwise the write raises. -/
+theorem written_field_exact_width {f : FieldSpec} {v : Val} {s : Str} (h : writeField f v = .ok s) :
+    s.length = f.width ∧ Written f v s :=
+  writeField_ok h
+
+/-- the reduced precision chosen by the guard is the largest one that fits -/
+theorem reduced_precision_is_maximal {f : FieldSpec} {v : Val} {s : Str} (h : fitValue f v = .ok s) :
+    (f.typ = 'e' ∨ f.typ = 'f' ∨ f.typ = 'g') ∧ s.length ≤ f.width ∧
+    ∃ p q, f.prec = some p ∧ q < p ∧ fmtVal (atPrec f q) v = .ok s ∧
+      ∀ q', q < q' → q' < p → ∀ t, fmtVal (atPrec f q') v = .ok t → f.width < t.length :=
+  fitValue_ok h
+
+/-- a write raises only if `%` itself rejects the value (wrong type) or the formatted value is
+    wider than the field -/
+theorem fails_only_when_too_wide {f : FieldSpec} {v : Val} {e : Exc} (h : writeField f v = .error e) :
+    fmtVal f v = .error e ∨ ∃ t, fmtVal f v = .ok t ∧ f.width < t.length :=
+  writeField_error h
+
+/-- … and in a well-formed `%e` field (all of the tables', see `all_tables_wf`) a real is rejected
+    only with `ValueError` and only when it is too wide at every precision down to 0 -/
+theorem fails_only_when_unrepresentable {f : FieldSpec} (hwf : FieldWF f) (ht : f.typ = 'e') (r : Rat)
+    {e : Exc} (h : writeField f (.real r) = .error e) :
+    e = .valueError ∧ ∀ q, q ≤ f.prec.getD 6 → f.width <
+      (pad false f.width (signChars (decide (r < 0)) ++ fmtEBody q r.num.natAbs r.den)).length :=
+  writeField_e_error hwf ht r h
+
+example : writeField e10_4 (.real (-2600)) = .ok "-2.600e+03".toList := by decide +kernel    -- one decimal fewer
+example : writeField e10_4 (.real (mkRat 1 (10 ^ 100))) = .ok "1.000e-100".toList := by decide +kernel
+example : writeField d5 (.int 100000) = .error .valueError := by decide +kernel               -- fails loudly
+example : writeField s5 (.str "abcdef".toList) = .error .valueError := by decide +kernel
+
+/-! ### whole records -/
+
+/-- **No silent spill.**  For every list of field specifications and every list of values,
+    `write_values_to_string` either raises or returns a line that is the concatenation of one
+    text per (value, field) pair, each exactly as wide as its field and each `Written` (blank,
+    full precision, or reduced precision of that one value).  In particular the line has exactly
+    Σ widths characters. -/
+theorem no_silent_spill (fs : List FieldSpec) (vals : List Val) :
+    (∃ e, writeValues fs vals = .error e) ∨
+    (∃ line strs, writeValues fs vals = .ok line ∧ line = strs.flatten ∧
+      line.length = widthSum (fs.take vals.length) ∧
+      All2 (fun (vf : Val × FieldSpec) s => s.length = vf.2.width ∧ Written vf.2 vf.1 s) (vals.zip fs) strs) := by
+  cases h : writeValues fs vals with
+  | error e => exact Or.inl ⟨e, rfl⟩
+  | ok line =>
+    right
+    obtain ⟨strs, h1, h2⟩ := (writeValues_ok_iff _ _ _).mp h
+    refine ⟨line, strs, rfl, h2, line_length h, ?_⟩
+    clear h h2
+    generalize vals.zip fs = l at h1
+    induction h1 with
+    | nil => exact .nil
+    | cons hab _ ih => exact .cons (writeField_ok hab) ih
+
+/-- a record with one value per field fills exactly the record's columns -/
+theorem full_record_length {fs : List FieldSpec} {vals : List Val} {line : Str}
+    (h : writeValues fs vals = .ok line) (hl : vals.length = fs.length) : line.length = widthSum fs := by
+  rw [line_length h, hl, List.take_length]
+
+/-- the model's `line_spec` gives the field after `fs₁` the columns `[Σ widths fs₁, + width)` -/
+theorem columns_of_field (fs₁ : List FieldSpec) (f : FieldSpec) (fs₂ : List FieldSpec) :
+    (lineSpec (fs₁ ++ f :: fs₂))[fs₁.length]? = some ((widthSum fs₁, widthSum fs₁ + f.width), f.typ) := by
+  rw [lineSpec_split]
+  have : (lineSpec fs₁).length = fs₁.length := lineSpec_go_length _ _
+  rw [← this]; simp
+
+/-- the columns of each field of a written line hold exactly that field's text -/
+theorem written_field_in_own_columns {fs₁ : List FieldSpec} {f : FieldSpec} {fs₂ : List FieldSpec}
+    {vs₁ : List Val} {v : Val} {vs₂ : List Val} {line : Str}
+    (h : writeValues (fs₁ ++ f :: fs₂) (vs₁ ++ v :: vs₂) = .ok line) (hl : vs₁.length = fs₁.length) :
+    ∃ s, writeField f v = .ok s ∧ s.length = f.width ∧
+      slice line (widthSum fs₁) (widthSum fs₁ + f.width) = s :=
+  written_field_columns h hl
+
+/-- the value `parse_string` returns for a field depends only on that field's own columns -/
+theorem parse_depends_only_on_own_columns {rf : ReadFn} {fs₁ : List FieldSpec} {f : FieldSpec}
+    {fs₂ : List FieldSpec} {line : Str} {out : List PVal}
+    (h : parseString rf (fs₁ ++ f :: fs₂) line = .ok out) :
+    ∃ x, out[fs₁.length]? = some x ∧
+      readField rf f.typ (slice line (widthSum fs₁) (widthSum fs₁ + f.width)) = .ok x :=
+  parse_field_at h
+
+/-- **Write then parse, field by field**: for any record, any position in it and either
+    conversion dictionary, the value `parse_string` returns at that position is the reading of
+    the text that `write_values_to_string` produced for *that* value — never of a neighbour's. -/
+theorem write_then_parse_field {rf : ReadFn} {fs₁ : List FieldSpec} {f : FieldSpec} {fs₂ : List FieldSpec}
+    {vs₁ : List Val} {v : Val} {vs₂ : List Val} {line : Str} {out : List PVal}
+    (hw : writeValues (fs₁ ++ f :: fs₂) (vs₁ ++ v :: vs₂) = .ok line) (hl : vs₁.length = fs₁.length)
+    (hp : parseString rf (fs₁ ++ f :: fs₂) line = .ok out) :
+    ∃ s x, writeField f v = .ok s ∧ out[fs₁.length]? = some x ∧ readField rf f.typ s = .ok x := by
+  obtain ⟨s, h1, _, h3⟩ := written_field_columns hw hl
+  obtain ⟨x, h4, h5⟩ := parse_field_at hp
+  rw [h3] at h5
+  exact ⟨s, x, h1, h4, h5⟩
+
+/-- the whole written record parses as the field-wise reading of each field's own text
+    (a trailing newline or anything else after the record does not matter) -/
+theorem parse_written_record {rf : ReadFn} {fs : List FieldSpec} {vals : List Val} {line : Str}
+    (h : writeValues fs vals = .ok line) (hl : vals.length = fs.length) (tail : Str) :
+    ∃ strs, line = strs.flatten ∧ All2 (fun (f : FieldSpec) (s : Str) => s.length = f.width) fs strs ∧
+      parseString rf fs (line ++ tail) =
+        (fs.zip strs).mapM (fun (p : FieldSpec × Str) => readField rf p.1.typ p.2) := by
+  obtain ⟨strs, h1, rfl⟩ := (writeValues_ok_iff _ _ _).mp h
+  have hw := written_widths _ _ _ h1
+  rw [hl, List.take_length] at hw
+  exact ⟨strs, rfl, hw, parse_complete hw tail⟩
+
+/-! ### what each kind of value reads back as -/
+
+/-- reals in `%e` fields: "to the printed digits" — the value rounded (half-even, see
+    `fmtE_nearest`) to `q+1` significant digits, `q` = the field's precision, or a smaller one when
+    the guard had to reduce it -/
+theorem roundtrip_real_e (rf : ReadFn) {f : FieldSpec} (ht : f.typ = 'e') (r : Rat) {s : Str}
+    (h : writeField f (.real r) = .ok s) :
+    ∃ q, q ≤ f.prec.getD 6 ∧ readField rf 'e' s =
+      .ok (.flt (.fin (decide (r < 0)) (fmtEParts q r.num.natAbs r.den).1
+        ((fmtEParts q r.num.natAbs r.den).2 - q))) :=
+  roundtrip_e_real rf ht r h
+
+theorem roundtrip_int_in_real_field (rf : ReadFn) {f : FieldSpec} (ht : f.typ = 'e') (i : Int) {s : Str}
+    (h : writeField f (.int i) = .ok s) :
+    ∃ q, q ≤ f.prec.getD 6 ∧ readField rf 'e' s =
+      .ok (.flt (.fin (decide (i < 0)) (fmtEParts q i.natAbs 1).1 ((fmtEParts q i.natAbs 1).2 - q))) :=
+  roundtrip_e_int rf ht i h
+
+/-- reals in `%f` fields: the value rounded to `q` decimals -/
+theorem roundtrip_real_f (rf : ReadFn) {f : FieldSpec} (ht : f.typ = 'f') (r : Rat) {s : Str}
+    (h : writeField f (.real r) = .ok s) :
+    ∃ q, q ≤ f.prec.getD 6 ∧ readField rf 'f' s =
+      .ok (.flt (.fin (decide (r < 0)) (fM q r.num.natAbs r.den) (-(q : Int)))) :=
+  roundtrip_f_real rf ht r h
+
+/-- the mantissa/exponent pair printed by `%e` is a nearest `p+1`-digit decimal:
+    `|n/d − m·10^(e−p)| ≤ ½·10^(e−p)`.  `NearAt n d m t` states this without division:
+    `|n − m·d·10^t| ≤ d·10^t/2` for `t ≥ 0` and `|n·10^(−t) − m·d| ≤ d/2` for `t < 0`. -/
+theorem fmtE_nearest (p n d : Nat) (hn : 0 < n) (hd : 0 < d) :
+    NearAt n d (fmtEParts p n d).1 ((fmtEParts p n d).2 - p) :=
+  fmtEParts_near p n d hn hd
+
+example : NearAt 5 2 3 (-1) ↔ (2 * (5 * 10) ≤ 2 * (3 * 2) + 2 ∧ 2 * (3 * 2) ≤ 2 * (5 * 10) + 2) := by
+  simp [NearAt, Near]
+
+/-- integers: exactly -/
+theorem roundtrip_int (rf : ReadFn) {f : FieldSpec} (ht : f.typ = 'd') (i : Int) {s : Str}
+    (h : writeField f (.int i) = .ok s) : readField rf 'd' s = .ok (.int i) :=
+  roundtrip_d_int rf ht i h
+
+/-- names: exactly the written text, i.e. the name padded to the field width (right-justified,
+    or left-justified for a `-` format); a name of exactly the field width comes back unchanged -/
+theorem roundtrip_name (rf : ReadFn) {f : FieldSpec} (ht : f.typ = 's') (nm : Str) {s : Str}
+    (h : writeField f (.str nm) = .ok s) (hnl : '\n' ∉ nm) :
+    (strTrunc f.prec nm).length ≤ f.width ∧
+      readField rf 's' s = .ok (.str (pad f.left f.width (strTrunc f.prec nm))) := by
+  obtain ⟨h1, h2, h3⟩ := roundtrip_s_str rf ht nm h
+  refine ⟨h2, ?_⟩
+  rw [h3, h1, rstripNewline_of_last]
+  intro c hc e
+  have hmem : c ∈ pad f.left f.width (strTrunc f.prec nm) := List.mem_of_getLast? hc
+  have : c = ' ' ∨ c ∈ nm := by
+    unfold pad ljust rjust at hmem
+    have htr : ∀ c, c ∈ strTrunc f.prec nm → c ∈ nm := by
+      intro c hc
+      unfold strTrunc at hc
+      cases hp : f.prec with
+      | none => rw [hp] at hc; exact hc
+      | some k => rw [hp] at hc; exact List.mem_of_mem_take hc
+    cases hl : f.left <;> rw [hl] at hmem <;> simp at hmem <;> rcases hmem with h | h
+    · exact Or.inl h.2
+    · exact Or.inr (htr c h)
+    · exact Or.inr (htr c h)
+    · exact Or.inl h.2
+  rcases this with h | h
+  · rw [h] at e; exact absurd e (by decide)
+  · rw [e] at h; exact hnl h
+
+theorem roundtrip_name_full_width (rf : ReadFn) {f : FieldSpec} (ht : f.typ = 's') (hp : f.prec = none)
+    (nm : Str) (hw : nm.length = f.width) (hnl : '\n' ∉ nm) :
+    writeField f (.str nm) = .ok nm ∧ readField rf 's' nm = .ok (.str nm) := by
+  have hpad : pad f.left f.width nm = nm := by
+    unfold pad ljust rjust; cases f.left <;> simp [hw]
+  have hf : fmtVal f (.str nm) = .ok nm := by
+    rw [fmtVal_s_str ht, hp]; simp only [strTrunc]; rw [hpad]
+  have hwf : writeField f (.str nm) = .ok nm := by
+    unfold writeField
+    rw [if_pos ⟨by simp, by rw [ht]; decide⟩, hf]
+    simp only
+    rw [if_neg (by omega)]
+  refine ⟨hwf, ?_⟩
+  have := (roundtrip_name rf ht nm hwf hnl).2
+  rw [hp] at this; simp only [strTrunc] at this; rw [hpad] at this; exact this
+
+/-- an absent value (`None`) in any position, and every `x` field, is written as blanks and
+    reads back as `None` in every numeric field -/
+theorem roundtrip_absent (rf : ReadFn) {f : FieldSpec} {v : Val} (hv : v = .none ∨ f.typ = 'x') :
+    writeField f v = .ok (List.replicate f.width ' ') ∧
+      (f.typ = 'd' ∨ f.typ = 'e' ∨ f.typ = 'f' ∨ f.typ = 'g' ∨ f.typ = 'x' →
+        readField rf f.typ (List.replicate f.width ' ') = .ok .none) :=
+  Proofs.roundtrip_absent rf hv
+
+/-! ### lines shorter than the record -/
+
+/-- Parsing a line that stops inside (or at the start of) some field: the complete fields give
+    their own values, the cut field is read from what is left of it, and every later field is read
+    from the empty string — `None` for numbers and `x`, `""` for names (`read_missing`). -/
+theorem parse_short_line {rf : ReadFn} {fs₁ : List FieldSpec} {strs : List Str}
+    (hw : All2 (fun (f : FieldSpec) (s : Str) => s.length = f.width) fs₁ strs)
+    (f : FieldSpec) (fs₂ : List FieldSpec) (part : Str) (hp : part.length ≤ f.width) :
+    parseString rf (fs₁ ++ f :: fs₂) (strs.flatten ++ part) = (do
+      let a ← (fs₁.zip strs).mapM (fun (p : FieldSpec × Str) => readField rf p.1.typ p.2)
+      let x ← readField rf f.typ part
+      let b ← fs₂.mapM (fun g => readField rf g.typ [])
+      pure (a ++ x :: b)) :=
+  parse_short hw f fs₂ part hp
+
+theorem read_missing (rf : ReadFn) (typ : Char) :
+    (typ = 'd' ∨ typ = 'e' ∨ typ = 'f' ∨ typ = 'g' ∨ typ = 'x' → readField rf typ [] = .ok .none) ∧
+    (typ = 's' → readField rf typ [] = .ok (.str [])) := by
+  constructor
+  · intro h; exact read_blank rf typ h 0
+  · intro h; subst h; rfl
+
+/-! ### every field of every record kind of the four tables -/
+
+/-- For every record kind of the t2data, extra-precision, t2incon and mulgrid tables as they are
+    in /repo now (`Gen/Specs.lean`, regenerated on every run): the specifications parse, the model's
+    `preprocess_specification` yields exactly the `line_spec` and `spec_width` the real one
+    computed, there is one name per spec, and every field is well formed (positive width; type in
+    `s d x e f`; reals carry a precision smaller than the width; only names are left-justified).
+    Proved by `decide` over the whole generated table, lifted in `Proofs/FixedTables.lean`. -/
+theorem all_tables_wf : ∀ t ∈ Gen.Specs.tables, ∀ sec ∈ t.sections,
+    ∃ fs, parseSpecs (sec.specs.map String.toList) = .ok fs ∧
+      (lineSpec fs).map (fun sp => ((sp.1.1 : Int), (sp.1.2 : Int), sp.2)) = sec.lineSpec ∧
+      sec.names.length = sec.specs.length ∧
+      ∀ f ∈ fs, FieldWF f ∧
+        (t.specWidth.map (fun kw => (kw.1.toList, kw.2))).lookup f.raw = some (f.width : Int) :=
+  tables_wf
+
+example : (Gen.Specs.tables.map (fun t => (t.sections.map (fun s => s.specs.length)).sum)).sum > 300 := by decide
+
 end Props.C02
